@@ -181,7 +181,9 @@ pub fn check(obs: &Obs, out: &mut CaseOut) -> Summary {
 
     // ---- how the incarnation ended -----------------------------------------------------------
     if let Some(Err(e)) = &obs.agent_result {
-        let expected = plan.ending == Ending::Return(false) && error_class(e) == "agent-task";
+        // Expected failures: the scripted failure of the agent's own task, and the runtime giving up
+        // after the store refused an operation (fault injection).
+        let expected = (plan.ending == Ending::Return(false) && error_class(e) == "agent-task") || (!obs.refused.is_empty() && error_class(e) == "persistence");
         if !expected {
             out.violation(
                 PROP,
@@ -502,8 +504,10 @@ pub fn check(obs: &Obs, out: &mut CaseOut) -> Summary {
             continue;
         }
         if let Some((t, e)) = &rec.reg_error {
-            // A registration that races with the end of the incarnation may fail.
-            if *t < obs.ending_at && obs.agent_result.as_ref().map_or(true, |r| r.is_ok()) {
+            // A registration that races with the end of the incarnation may fail; so does one that
+            // comes after the runtime gave up because the store refused an operation.
+            let runtime_gave_up = obs.refused.first().map_or(false, |(rt, _)| rt < t);
+            if *t < obs.ending_at && !runtime_gave_up && obs.agent_result.as_ref().map_or(true, |r| r.is_ok()) {
                 out.violation(
                     PROP,
                     format!("lane-registration-failed/{}", facets[l]),
